@@ -70,7 +70,7 @@ func (e *Env) modelDecode(l *facts.Level, rule string) *decodeModel {
 					}
 					m.Split = x
 				}
-				if callee.Object() == types.Object(l.Method("decodeOne")) {
+				if callee.Object() == types.Object(l.DecodeOne) {
 					if m.One != nil {
 						c.Undecided(rule, who, e.P.Pos(x.Pos()), "more than one call of the own-level decodeOne")
 						return nil
